@@ -190,7 +190,12 @@ CLAIMS = {
              "e2e_report_wf + e2e_report_roundtrip (the hypotheses of report_roundtrip discharged for the pipeline's own output), "
              "e2e_per_line_local, e2e_unknown_isolated (C08's last clause at file level), e2e_noise_transparent_text (C11 at text level); "
              "tied by level 3: the real command line under --fixed vs the driver's e2e.x86 / e2e.a64 on the same file text and model YAML, "
-             "whole analysis at 1e-9 and report text byte for byte (synthetic models + zen2/spr/tx2/a64fx).",
+             "whole analysis at 1e-9 and report text byte for byte (synthetic models + zen2/spr/tx2/a64fx). Default (optimal) scheduling: "
+             "analyseWith (pressures supplied), OptimalOutcome, Props/EndToEndOpt (29): opt_invariant_part (--fixed and default runs "
+             "differ at most in pressure cells and port totals), opt_uniform_admissible, opt_totals_feasible, "
+             "opt_bottleneck_ge_optimum (reported bottleneck >= optimum - slack - 1/200), opt_report_roundtrip; tied by e2e.opt: the "
+             "real command line without --fixed, report byte for byte given the implementation's pressures, first-pass pressures "
+             "judged admissible by Spec.checkFeasible.",
         design="5/C13 + notes/C13.md + notes/EndToEnd.md",
         note=COMMON_NOTE + "Not modelled: detect_ISA, header/symbol-map blocks (tied by text comparison only); totals >= 1000 in a "
              "4-wide column are read as tokens. End-to-end model: both ISAs, --fixed only (the balancer is relational, C01); parser "
